@@ -106,8 +106,11 @@ def main(argv=None):
     # budgets are sized well above the measured times (<= 5 s unloaded) so verdicts do not flip under load
     timeout_ms = 60000 if tier == 'quick' else 180000
     results = run_contracts(a.prop, cfg.get('modules', []), timeout_ms, a.jobs)
+    os.environ['VERIF_TIER'] = tier
+    os.environ['VERIF_JOBS'] = str(a.jobs)
     for spec in cfg.get('static', []):
-        # static contract checkers (effect / frame contracts decided on the AST, e.g. vf.effects for C20)
+        # static contract checkers (effect / frame contracts decided on the AST, e.g. vf.effects for C20; CxxVC on the
+        # C++ headers and generated C++, vf.cxx_check)
         modname, fname = spec.split(':')
         try:
             results.extend(getattr(importlib.import_module(modname), fname)(os.environ.get('VERIF_REPO', '/repo')))
@@ -168,7 +171,8 @@ def main(argv=None):
 
     def is_known(key):
         for k in kf:
-            if k['match'] in key:
+            ms = k['match'] if isinstance(k['match'], list) else [k['match']]
+            if any(m in key for m in ms):
                 return k
         return None
 
@@ -238,7 +242,7 @@ def main(argv=None):
             'distinct_nontrivial': max(2, discharged + sum(b.get('distinct', 0) for b in bounded)),
             'known_findings_reported': sorted(set(known_lines)),
         },
-        'assumptions': cfg.get('assumptions', []),
+        'assumptions': cfg.get('assumptions', []) + sorted(set(x for r in results for x in r.get('assumed', []))),
     }
     os.makedirs(os.path.join(OUT, 'evidence'), exist_ok=True)
     with open(os.path.join(OUT, 'evidence', '%s.json' % a.prop), 'w') as f:
